@@ -268,6 +268,60 @@ DRV_OP(OpSdHuge, "sd.huge") {
   return out;
 }
 
+// a lazy set traversed twice (the element cache of lazy sets is keyed by position): both passes must yield the same strictly
+// increasing sequence of Cardinality() elements
+DRV_OP(OpSdLazyTwice, "sd.lazy2") {
+  StructuredData value = Factory::EmptySet();
+  if (a.contains("bool")) {
+    std::vector<int32_t> base;
+    for (int32_t i = 1; i <= a["bool"].get<int32_t>(); ++i) {
+      base.push_back(i);
+    }
+    value = Factory::Boolean(Factory::SetV(base));
+  } else {
+    std::vector<StructuredData> factors;
+    for (const auto& k : a.at("dec")) {
+      std::vector<int32_t> base;
+      for (int32_t i = 1; i <= k.get<int32_t>(); ++i) {
+        base.push_back(i);
+      }
+      factors.push_back(Factory::SetV(base));
+    }
+    value = Factory::Decartian(factors);
+  }
+  const long stopFirst = a.value("stop_first", -1L);   // the first pass may stop early (a search that found its element)
+  json out = json::object();
+  out["card"] = value.B().Cardinality();
+  json passes = json::array();
+  for (int pass = 0; pass < 2; ++pass) {
+    long n = 0;
+    bool ordered = true;
+    size_t hash = 1469598103934665603ULL;
+    json marks = json::object();
+    std::optional<StructuredData> prev;
+    for (const auto& el : value.B()) {
+      const auto text = el.ToString();
+      if (n < 3 || n == 255 || n == 256 || n == 257 || n == 65535 || n == 65536 || n == 65537) {
+        marks[std::to_string(n)] = text;
+      }
+      if (stopFirst < 0 || pass == 1 || n <= stopFirst) {
+        hash = (hash ^ std::hash<std::string>{}(text)) * 1099511628211ULL;
+      }
+      if (prev.has_value() && !(*prev < el)) {
+        ordered = false;
+      }
+      prev = el;
+      ++n;
+      if (pass == 0 && stopFirst >= 0 && n > stopFirst) {
+        break;
+      }
+    }
+    passes.push_back(json{ {"count", n}, {"ordered", ordered}, {"marks", marks}, {"hash", hash} });
+  }
+  out["passes"] = passes;
+  return out;
+}
+
 DRV_OP(OpSdCopy, "sd.copy") {
   Pool()[a.at("to").get<std::string>()] = Pool().at(a.at("from").get<std::string>());
   return json::object();
@@ -291,6 +345,7 @@ DRV_OP(OpSdcPack, "sdc.pack") {
   const auto type = drv::BuildType(a.at("type"));
   const auto value = drv::BuildValue(a.at("spec"));
   json out = json::object();
+  out["val0"] = Observe(value);      // what was built, observed before anything else traverses it
   out["typestr"] = type.ToString();
   out["compatible"] = ccl::object::CheckCompatible(value, type);
   const auto compact = SDCompact::FromSData(value, type);
